@@ -15,7 +15,11 @@ ASSUMPTIONS = ["under an injected ENOSPC/EIO on a LoggingMonitor file the oracle
                "constraints are drawn from deterministic idempotent box-compatible families",
                "step monitors are replaced mid-run only with new=False (the property says monitors start empty)",
                "evaluation-monitor contents are checked only with the default in-process map",
-               "costs that return nan are excluded (a nan best makes 'non-increasing' undefined)"]
+               "costs that return nan are excluded (a nan best makes 'non-increasing' undefined)",
+               "a cost call that raises (injected) has begun and counts as a call; the caller handles the exception and, in most such plans, "
+               "steps again: 'best <= min over everything evaluated in the epoch' is then asserted for DE/DE2/NM on plain configurations "
+               "(no bounds/constraint/reducer), with the listed findings for DE2's aborted map, DE's restarted generation 0 and Powell's aborted step",
+               "Step(EvaluationMonitor=m)/Step(StepMonitor=m) are treated as the equivalent Set*Monitor(m, new=False) made before the iteration"]
 REAL = ["mystic solvers, termination, monitors, tools.wrap_*", "files behind LoggingMonitor (real files via proxy)"]
 STUB = ["cost, constraints, penalty, callback (scripted peers)", "clocks", "signal/tty", "file open() proxy"]
 
